@@ -54,6 +54,7 @@ OF OR IN CONNECTION WITH THE SOFTWARE OR THE USE OR OTHER DEALINGS IN THE SOFTWA
 #include <minisat/mtl/Alg.h>
 #include <tsolvers/THandler.h>
 
+#include <atomic>
 #include <cstdio>
 #include <iosfwd>
 #include <memory>
@@ -95,7 +96,7 @@ protected:
     bool      verbosity;
     enum class ConsistencyAction { BacktrackToZero, ReturnUndef, SkipToSearchBegin, NoOp };
     int search_counter;
-    bool stopFlag{false};
+    std::atomic<bool> stopFlag{false}; // set by notifyStop() from another thread
 #ifdef OPENSMT_VERIF
     // "(tr <inst> <kind> <nVars> <trail size> (<trail_lim ...>))": shape of the trail at a search event
     void verifTraceTrail(char const * kind) const;
